@@ -131,6 +131,7 @@ func checkC07(c *Check) {
 	c.peerManagerContracts("C07.5 manager-effects")
 	c.fsmContracts("C07.3 fsm-effects")
 	c.validateArguments("C07.1 equal-identifiers-admitted")
+	c.inboundAdmission("C07.1 late-inbound-admitted")
 	c.specConstants("C07.3 spec-constants", "NOTIF_CODE_CEASE")
 	fn := p.Fn("peer.handleStateTransition")
 	if fn == nil || len(fn.Params) != 3 {
